@@ -13,10 +13,11 @@ import (
 )
 
 type Gen struct {
-	T       *tape.Tape
-	Tree    *faulttree.Tree
-	Ctx     *faulttree.Node
-	NoFuncs bool // never emit a function call (keeps the function table untouched)
+	T        *tape.Tape
+	Tree     *faulttree.Tree
+	Ctx      *faulttree.Node
+	FuncBias bool // favour function calls (more function-table lookups per compile)
+	NoFuncs  bool // never emit a function call (keeps the function table untouched)
 	// reach probes
 	UsedDeref, UsedCurrent, UsedPred, UsedText, UsedFunc bool
 }
@@ -51,7 +52,11 @@ func (g *Gen) Expr(depth int) string {
 		}
 		return g.pick(numvals)
 	}
-	switch t.Pick(8, 2, 2, 6, 1, 1, 4) {
+	fw := 4
+	if g.FuncBias {
+		fw = 14
+	}
+	switch t.Pick(8, 2, 2, 6, 1, 1, fw) {
 	case 0:
 		return g.Path(depth - 1)
 	case 1:
